@@ -157,6 +157,17 @@ def r2_score_limits(ctx):
     good = good and sup is not None and vc[0].lineno < sup.lineno
     ctx.check(good, init, vc[0] if vc else init.node, "limits are stored, then the profile is validated, then the election runs", "",
               "GeneralRating.__init__ does not validate the profile after storing L and k and before running")
+    # the limits that are enforced are the caller's: self.L / self.k are the parameters themselves, which nothing re-binds
+    # (a conversion such as Fraction(L).limit_denominator() moves a rational limit and with it the set of legal ballots)
+    for attr, par in (("self.L", "L"), ("self.k", "k")):
+        if par not in init.params:
+            ctx.vanished(f"GeneralRating.__init__ parameter {par}")
+            continue
+        st = [n for n in astx.walk_own(init.node) if isinstance(n, (ast.Assign, ast.AnnAssign)) and any(astx.u(t) == attr for t in (n.targets if isinstance(n, ast.Assign) else [n.target]))]
+        rebound = [n for n in astx.walk_own(init.node) if isinstance(n, ast.Name) and n.id == par and isinstance(n.ctx, (ast.Store, ast.Del))]
+        good = len(st) == 1 and st[0].value is not None and astx.is_name(st[0].value, par) and not rebound
+        ctx.check(good, init, st[0] if st else init.node, f"{attr} is the constructor's argument {par}, unconverted", "",
+                  f"{attr} is not the argument {par} as given (" + (f"`{astx.u(st[0])[:60]}`" if st else "no store") + (f"; {par} is re-bound at line {rebound[0].lineno}" if rebound else "") + ")")
 
 
 def _seat_obligation(ctx, f, label, p, mname):
@@ -258,6 +269,18 @@ def r5_generators_profiles(ctx):
     obligation(ctx, f, "row 31: bloc names of proportions and intervals must agree (ValueError)", "bvp.keys() != pib.keys()", "ValueError", rename=rn, inline=True, allow_context=True)
     obligation(ctx, f, "row 32: bloc names of proportions and cohesion must agree (ValueError)", "bvp.keys() != cp.keys()", "ValueError", rename=rn, inline=True, allow_context=True)
     obligation(ctx, f, "row 33: bloc names of intervals and cohesion must agree (ValueError)", "pib.keys() != cp.keys()", "ValueError", rename=rn, inline=True, allow_context=True)
+    # what is validated is what the caller passed: the keyword dictionary is only read
+    kw = f.node.args.kwarg.arg if f.node.args.kwarg is not None else None
+    if kw is None:
+        ctx.vanished("BallotGenerator.__init__(**kwargs)")
+    else:
+        MUT = {"update", "pop", "popitem", "setdefault", "clear", "__setitem__", "__delitem__"}
+        writes = [n for n in astx.walk_own(f.node)
+                  if (isinstance(n, ast.Subscript) and isinstance(n.ctx, (ast.Store, ast.Del)) and astx.is_name(n.value, kw))
+                  or (isinstance(n, ast.Name) and n.id == kw and isinstance(n.ctx, (ast.Store, ast.Del)))
+                  or (isinstance(n, ast.Call) and isinstance(n.func, ast.Attribute) and n.func.attr in MUT and astx.is_name(n.func.value, kw))]
+        ctx.check(not writes, f, writes[0] if writes else f.node, "rows 29-34 are checked on the caller's own values (the keyword dictionary is not written)", "",
+                  f"`{astx.u(astx.stmt_of(writes[0], astx.parents(f.node)))[:80]}` replaces a value the caller passed before / instead of validating it" if writes else "")
     # row 30: every bloc's cohesion row
     pm = astx.parents(f.node)
     N = Normalizer(f.node, inline=True, rename=rn)
@@ -309,10 +332,10 @@ def r5_generators_profiles(ctx):
 
 RULES = [
     ("C20.R1", r1_ballot_data, 16, "rows 1-8, 12: ballots lacking the data a rule needs are rejected with TypeError, every ballot, before running"),
-    ("C20.R2", r2_score_limits, 4, "rows 9-11: per-candidate limit, non-negativity and budget are enforced for every ballot"),
+    ("C20.R2", r2_score_limits, 6, "rows 9-11: per-candidate limit, non-negativity and budget are enforced for every ballot"),
     ("C20.R3", r3_seat_range, 10, "rows 13-21: seat ranges and Alaska stage sizes are rejected with ValueError before running"),
     ("C20.R4", r4_vectors_limits_quota, 9, "rows 22-28: score vectors, rating limits, Limited budget, unknown quota"),
-    ("C20.R5", r5_generators_profiles, 13, "rows 29-37: generator bloc parameters, interval overlap, duplicate candidates"),
+    ("C20.R5", r5_generators_profiles, 14, "rows 29-37: generator bloc parameters, interval overlap, duplicate candidates"),
 ]
 
 RT = "src/votekit/elections/election_types/scores/rating.py"
@@ -327,6 +350,8 @@ AR = "src/votekit/elections/election_types/ranking/abstract_ranking.py"
 FAULTS = [
     ("ranking check only first ballot", [(AR, "                raise TypeError(f\"Ballot {ballot} has no ranking.\")", "                raise TypeError(f\"Ballot {ballot} has no ranking.\")\n            break")], "C20.R1"),
     ("ranking check ValueError", [(AR, "                raise TypeError(f\"Ballot {ballot} has no ranking.\")", "                raise ValueError(f\"Ballot {ballot} has no ranking.\")")], "C20.R1"),
+    ("rating limits moved onto the 10**6 grid", [(RT, "        self.m = m\n        if L <= 0:", "        self.m = m\n        L = Fraction(L).limit_denominator()\n        if L <= 0:")], "C20.R2"),
+    ("one-bloc convenience overwrites the caller's proportions", [(BG, "        if any(x in kwargs for x in nec_parameters):", "        if len(kwargs.get(\"pref_intervals_by_bloc\", {})) == 1:\n            kwargs[\"bloc_voter_prop\"] = {b: 1.0 for b in kwargs[\"pref_intervals_by_bloc\"]}\n        if any(x in kwargs for x in nec_parameters):")], "C20.R5"),
     ("stv tie check len>2", [(STV, "elif any(len(s) > 1 for s in ballot.ranking):", "elif any(len(s) > 2 for s in ballot.ranking):")], "C20.R1"),
     ("stv tie check first position only", [(STV, "elif any(len(s) > 1 for s in ballot.ranking):", "elif any(len(s) > 1 for s in ballot.ranking[:1]):")], "C20.R1"),
     ("stv validates after running", [(STV, "        self._stv_validate_profile(profile)\n\n        if m <= 0", "        if m <= 0")], "C20.R1"),
